@@ -184,6 +184,11 @@ pub fn run(ctx: &Ctx) -> Value {
     let lattice = super::c09::offset_lattice();
     let all = super::c09::all_minute_offsets();
     let (mut nw, mut skipped) = (0usize, 0usize);
+    // digit groups of the fraction: every combination of {0, 1, 256, 512, 768, 999} in the milli-, micro- and nanosecond group, all seconds formats
+    for (i, f) in crate::proj::fraction_groups().into_iter().enumerate() {
+        let v = dates[i % dates.len()].and_time(crate::proj::mk_time_any(45_296 + (i as u32 % 60), f));
+        if let Some(dt) = super::c09::mk(|| FixedOffset::east_opt(lattice[i % lattice.len()]).and_then(|o| o.from_local_datetime(&v).single())) { nw += write_events(&mut tw, &dt, "fixed", true); }
+    }
     let mut values: Vec<NaiveDateTime> = Vec::new();
     for d in &dates { for t in &times { values.push(d.and_time(*t)); } }
     // quick: every (date, time) with 3 offsets of the lattice in rotation; thorough: the whole lattice, and all whole minutes for a few
